@@ -407,6 +407,9 @@ func (e *Enc) havocDesignator(m Clause, env map[string]envEntry, st, old *State,
 				e.heapSet(st, hk, "(store "+e.heapGet(st, hk)+" "+d.ref+" "+fresh+")")
 			}
 		}
+	case "ghostarr":
+		fresh := e.declare(e.freshName("modga"), "(Array Int Int)")
+		e.heapSet(st, d.hk, sStore(e.heapGet(st, d.hk), d.idx, fresh))
 	case "ghostloc":
 		fresh := e.declare(e.freshName("modg"), "Int")
 		e.heapSet(st, d.hk, sStore(e.heapGet(st, d.hk), d.idx, fresh))
